@@ -329,6 +329,9 @@ def run(case, ctx):
                 continue
             if f == "tx.ternary" and size > 60:
                 continue
+            if f == "m.kcuts" and (size > 25 or p["k"] > 3):
+                ctx.probe("skipped_heavy")
+                continue
             exc = None
             res = None
             try:
